@@ -13,6 +13,7 @@ import typing
 from core import framework as fw
 from core import sexp
 
+from . import c03_api as ax
 from . import c03_bridge as br
 from . import pipegen as pg
 
@@ -99,6 +100,8 @@ def denote(ast, scope=_origin):
             return Sem(_map(a, None, s.apply), s.train, s.label, s.states + ((t[0], _fit(t, s.train, s.label)),))
 
         return debug
+    if kind == 'api':
+        return ax.denote_api(ast, scope, Sem)
     if kind == 'stack':
         _, bases, n, splitter, appender, stacker, reducer = ast
         bases = [denote(b) for b in bases]
@@ -135,7 +138,7 @@ def denote(ast, scope=_origin):
 
 
 def oracle(ast) -> Sem:
-    return denote(pg.to_library(ast))(pg.INPUT_APPLY, pg.INPUT_TRAIN, pg.INPUT_LABEL)
+    return denote(ax.to_library(ast))(pg.INPUT_APPLY, pg.INPUT_TRAIN, pg.INPUT_LABEL)
 
 
 # --------------------------------------------------------------------------------------------------
@@ -188,7 +191,7 @@ def impl(ast):
 def _impl(ast):
     """Real composition: outputs of both compiled segments + trained states; and two expansions of the
     same expression for the independence clause."""
-    comp = pg.composition(ast)
+    comp = ax.composition(ast)
     res = pg.run_composition(comp)
     out = {
         'train': _canon(res.train),
@@ -201,7 +204,7 @@ def _impl(ast):
     except Exception as err:  # pylint: disable=broad-except
         out['segments'] = {'export_error': f'{type(err).__name__}: {err}'[:300]}  # a defect of the exporter, not of forml
     del comp
-    expr = pg.build(ast)
+    expr = ax.build(ast)
     first, second = expr.expand(), expr.expand()
     g1, n1 = _expansion_groups(first)
     g2, n2 = _expansion_groups(second)
@@ -219,6 +222,19 @@ def _impl(ast):
 # --------------------------------------------------------------------------------------------------
 def with_probe(ast):
     return ['seq', ast, ['wrap', NONE, [PROBE, True], [PROBE, True]]]
+
+
+def probed(ast):
+    """An expression with an api operator is only ever evaluated with a closing mapper behind it (`Composition` re-traces
+    the final tails: a side branch left on the last tail of the pipeline legitimately becomes the tail)."""
+    if not ax.has_api(ast):
+        return ast
+    last = ast
+    while last[0] == 'seq':
+        last = last[2]
+    if last[0] == 'wrap' and last[2] != NONE and last[3] != NONE and last[2][0] == last[3][0] and last[1] == NONE:
+        return ast
+    return with_probe(ast)
 
 
 CORPUS = [
@@ -407,6 +423,10 @@ class C03(fw.Check):
             'a nested-ensemble stream (hand-picked + random: FullStack inside a base / inside the scope of another FullStack, '
             'both, debug operators inside bases and scopes of ensembles, label operators in scopes and bases; in every '
             'parenthesisation with a neighbouring operator; the quick tier must evaluate every one of these six shapes); '
+            'operators written against the public composition API (Trunk.extend / Trunk.use with every non-empty subset of '
+            'segments supplied, labels rewritten from the train features through an untrained side branch on the train tail, a '
+            'trained side branch, an untrained sink on the train tail), each form around mappers / label operators / MapReduce / '
+            'ensembles and in random mixtures; '
             'each with a stateful probe mapper appended (reveals the final train features and labels) and a third of them '
             'also bare. A case is the expression (tags renumbered); non-trivial when it has >= 2 leaves or a compound operator. '
             'Implementation = flow.Composition(source, expr): train and apply segment compiled and interpreted, the apply '
@@ -440,7 +460,7 @@ class C03(fw.Check):
             ['mapreduce', [[0, True], [0, False]], 0], ['debug', [0, False], [0, True]],
             ['stack', [['wrap', NONE, [0, True], [0, True]]], 2, 0, 0, 0, 0],
         ]
-        out = [pg.retag(c) for c in CORPUS]
+        out = [ax.retag(c) for c in CORPUS]
         seen = set()
         # exhaustive depths are not case counts: the framework's escalation (quick tier on a changed source tree: counts x4)
         # adds one level, not two (8^4 x 5 expressions would turn the quick tier into the thorough one)
@@ -453,27 +473,29 @@ class C03(fw.Check):
         for _ in range(self.n(4, 60)):
             n = rng.choice([3, 4, 5, 5])
             seq = [gen.leaf(1) if rng.random() < 0.5 else rng.choice(extended) for _ in range(n)]
-            out.extend(pg.retag(t) for t in pg.parenthesisations(seq))
+            out.extend(ax.retag(t) for t in pg.parenthesisations(seq))
         # the scope-wrapping operator in every position and parenthesisation of short sequences
         for _ in range(self.n(8, 150)):
             n = rng.choice([2, 3, 3, 4])
             seq = [rng.choice(extended[:-1]) if rng.random() < 0.7 else gen.leaf(1) for _ in range(n)]
             bases = [gen.expr(rng.choice([1, 1, 2]), depth=1, stack=False) for _ in range(rng.choice([1, 1, 2]))]
             seq[rng.randrange(n)] = ['stack', bases, rng.choice([2, 2, 3]), 0, 0, 0, 0]
-            out.extend(pg.retag(t) for t in pg.parenthesisations(seq))
+            out.extend(ax.retag(t) for t in pg.parenthesisations(seq))
         # random larger ones
         for _ in range(self.n(120, 2000)):
             out.append(gen.expr(rng.randint(2, 12)))
         # nested ensembles, debug operators inside ensembles, label operators in scopes (also in the quick tier)
         out.extend(self._nested(gen))
+        # operators written against the public composition API (always followed by the probe: see `_api`)
+        out.extend(self._api(gen, extended))
         # operators written against the public API, alone and mixed with library operators in every parenthesisation
-        out.extend(pg.retag(c) for c in CORPUS_API)
+        out.extend(ax.retag(c) for c in CORPUS_API)
         customs = [['custom', [0, True]], ['custom', [0, False]]]
         for _ in range(self.n(6, 120)):
             n = rng.choice([2, 3, 3, 4])
             seq = [rng.choice(customs) if rng.random() < 0.5 else rng.choice(extended) for _ in range(n)]
             seq[rng.randrange(n)] = rng.choice(customs)
-            out.extend(pg.retag(t) for t in pg.parenthesisations(seq))
+            out.extend(ax.retag(t) for t in pg.parenthesisations(seq))
         cases = []
         for ast in out:
             key = sexp.dumps(ast)
@@ -483,25 +505,64 @@ class C03(fw.Check):
             cases.append(with_probe(ast))
             # a third also bare; thorough: every expression up to 3 leaves also bare, the exhaustive 4-leaf sweep only
             # with the probe (budget)
-            bare = rng.random() < 0.34 or key in getattr(self, '_always_bare', ())
+            bare = (rng.random() < 0.34 or key in getattr(self, '_always_bare', ())) and not ax.has_api(ast)
             if not self.quick:
-                nl = pg.leaves(ast)
-                bare = nl <= 3 or (bare and (nl != 4 or pg.kinds(ast) != {'wrap'}))
+                nl = ax.leaves(ast)
+                bare = nl <= 3 or (bare and (nl != 4 or ax.kinds(ast) != {'wrap'}))
+            # never bare with an api operator: `Composition` re-traces the final tails, a side branch left on the last tail
+            # of the pipeline legitimately becomes the tail (two of them: `Ambiguous tail`)
+            bare = bare and not ax.has_api(ast)
             if bare:
                 cases.append(ast)
         for ast in CORPUS_BARE:
-            ast = pg.retag(ast)
+            ast = ax.retag(ast)
             if sexp.dumps(ast) not in seen:
                 seen.add(sexp.dumps(ast))
                 cases.append(ast)
         return cases
+
+    def _api(self, gen, extended) -> list:
+        """Operators written against the public composition API (props/c03_api.py): `Trunk.extend` / `Trunk.use` with every
+        non-empty subset of (apply, train, label) supplied, labels rewritten from the train-mode features through an
+        untrained side branch on the tail of the train segment, a trained side branch, an untrained sink on the train
+        tail. Every form right behind and right in front of a stateful mapper / a label operator / a MapReduce / an
+        ensemble, in both parenthesisations; then random mixtures with library operators in every parenthesisation.
+        Never bare: `Composition` re-traces the final tails, a side branch left on the last tail would become the tail."""
+        rng = self.rng
+        out = []
+        forms = ax.api_leaves()
+        mapper = ['wrap', NONE, [0, True], [0, True]]
+        around = [mapper, ['wrap', [0, True], NONE, NONE], ['mapreduce', [[0, True], [0, False]], 0], _stk([_w()])]
+        for form in forms:
+            out.append(ax.retag(['seq', mapper, ['seq', form, mapper]]))
+            out.append(ax.retag(['seq', ['seq', mapper, form], mapper]))
+            out.append(ax.retag(['seq', form, mapper]))
+        for form in forms[:7] + forms[-3:]:
+            for other in around[1:]:
+                out.append(ax.retag(['seq', ['seq', mapper, form], other]))
+                out.append(ax.retag(['seq', other, ['seq', form, mapper]]))
+        # api operators inside the bases / the scope of an ensemble
+        for form in forms[-3:] + [forms[3], forms[6]]:
+            out.append(ax.retag(_stk([_seq(form, _w())])))
+            out.append(ax.retag(_stk([_seq(_w(), form)])))
+            out.append(ax.retag(_seq(_seq(_w(), form), _stk([_w()]))))
+        for _ in range(self.n(40, 500)):
+            n = rng.choice([2, 3, 3, 4])
+            seq = [rng.choice(forms) if rng.random() < 0.5 else (rng.choice(extended) if rng.random() < 0.6 else gen.leaf(1))
+                   for _ in range(n)]
+            seq[rng.randrange(n)] = rng.choice(forms)
+            trees = list(pg.parenthesisations(seq))
+            if len(trees) > 5:
+                trees = rng.sample(trees, 5)
+            out.extend(ax.retag(t) for t in trees)
+        return out
 
     def _nested(self, gen) -> list:
         """Hand-picked nested ensembles (each also bare) + random ones: an inner ensemble in a base or in the scope of an
         outer one, with random stack-free neighbours (incl. debug and label operators), 2-3 folds, 1-2 bases, in every
         parenthesisation with an optional operator before / after. Oversize provenance terms are re-drawn."""
         rng = self.rng
-        out = [pg.retag(c) for c in CORPUS_NESTED]
+        out = [ax.retag(c) for c in CORPUS_NESTED]
         self._always_bare = {sexp.dumps(c) for c in out}
         self._spec_cache = {}
 
@@ -572,7 +633,7 @@ class C03(fw.Check):
                 items.insert(0, spice())
             if rng.random() < 0.4:
                 items.append(spice())
-            trees = [pg.retag(t) for t in pg.parenthesisations(items)]
+            trees = [ax.retag(t) for t in pg.parenthesisations(items)]
             specs = {sexp.dumps(with_probe(t)): self._oracle_canon(with_probe(t)) for t in trees}
             if any(v is None for v in specs.values()):
                 continue
@@ -622,7 +683,7 @@ class C03(fw.Check):
             return False
         # an expression that leaves the train path untouched ends the train segment in the `Future` proxying the first
         # output port of the (two-output) label extractor: not a `(head, tail)` of workers, outside C01's `Segment`
-        for name in (('train', 'apply') if br.maps_train(ast) else ('apply',)):
+        for name in (('train', 'apply') if ax.maps_train(ast) else ('apply',)):
             for key in ('nodes', 'head', 'tail', 'groups', 'elsewhere', 'dangling'):
                 if rseg[name][key] != mseg[name][key]:
                     self.diverge(f'{name} segment of flow.Composition vs toSegment of the model: {key}', case,
@@ -632,7 +693,7 @@ class C03(fw.Check):
             self.diverge('Composition.persistent vs persistentOf of the model (groups in list order)', case,
                          rseg['persistent'], mseg['persistent'])
             ok = False
-        if br.maps_train(ast):
+        if ax.maps_train(ast):
             bad = [n for n, b in mseg['checks'].items() if not b]
             if bad:
                 self.diverge('C01 side conditions (wf / connected / assetsOK) fail on the segments of the model', case, None, bad)
@@ -664,7 +725,7 @@ class C03(fw.Check):
                                  mrun[part][:600] if part != 'states' else mrun[part][:6])
                     ok = False
             # (an API-level operator has no orphan prototype worker: its group sizes differ from the library operator's)
-            if 'custom' not in pg.kinds(ast) and real['indep']['groups1'] != mrun['groups']:
+            if 'custom' not in ax.kinds(ast) and real['indep']['groups1'] != mrun['groups']:
                 self.diverge('group structure of one expansion (tag, members, trained)', case, real['indep']['groups1'], mrun['groups'])
                 ok = False
             # Lean denotation <-> Lean graph evaluation (what C03_coherence states), incl. the label path
@@ -681,7 +742,7 @@ class C03(fw.Check):
         # oracle on the real code
         for part, what in (('train', 'train-mode output'), ('apply', 'apply-mode output'), ('states', 'set of trained states')):
             if real[part] != spec[part]:
-                self.violate(f'{what} of the composed pipeline differs from the denotation of the expression ({pg.shape(ast)})',
+                self.violate(f'{what} of the composed pipeline differs from the denotation of the expression ({ax.shape(ast)})',
                              case, f'coherence-{part}', {'impl': str(real[part])[:500], 'spec': str(spec[part])[:500]})
                 ok = False
         ind = real['indep']
@@ -713,9 +774,9 @@ class C03(fw.Check):
         reals = pg.run_batch(impl, kept)
         lines = []
         for ast in kept:
-            lines.append(sexp.dumps(['run', pg.to_library(ast)]))
-            lines.append(sexp.dumps(['denote', pg.to_library(ast)]))
-            lines.append(sexp.dumps(['bridge', [br.SRC_APPLY, br.SRC_TRAIN, br.SRC_LABEL], pg.to_library(ast)]))
+            lines.append(sexp.dumps(['run', ax.to_library(ast)]))
+            lines.append(sexp.dumps(['denote', ax.to_library(ast)]))
+            lines.append(sexp.dumps(['bridge', [br.SRC_APPLY, br.SRC_TRAIN, br.SRC_LABEL], ax.to_library(ast)]))
         answers = self.model(lines)
         verdicts = []
         for i, (ast, spec, real) in enumerate(zip(kept, specs, reals)):
@@ -723,8 +784,8 @@ class C03(fw.Check):
             mden = self._model_fields(answers[3 * i + 1])
             mseg = br.model_segments(sexp.loads(answers[3 * i + 2]))
             if account:
-                kinds = pg.kinds(ast)
-                nl = pg.leaves(ast)
+                kinds = ax.kinds(ast)
+                nl = ax.leaves(ast)
                 feats = features(ast)
                 for f in feats:
                     self._feature_count[f] = self._feature_count.get(f, 0) + 1
@@ -793,7 +854,7 @@ class C03(fw.Check):
                 small = self._shrink(v.witness['expr'], v.signature)
                 f = self._fails(small)
                 detail = {'impl': str(f[1])[:500], 'spec': str(f[2])[:500]} if f else v.detail
-                shrunk.append(fw.Violation(v.what.split(' (')[0] + f' ({pg.shape(small)})', {'expr': small}, v.signature, detail))
+                shrunk.append(fw.Violation(v.what.split(' (')[0] + f' ({ax.shape(small)})', {'expr': small}, v.signature, detail))
             else:
                 shrunk.append(v)
         self.violations[:] = shrunk
@@ -833,6 +894,7 @@ class C03(fw.Check):
 
     def _fails(self, ast) -> typing.Optional[tuple]:
         """Oracle on the real code for one expression (in-process): (part, impl, spec) of the first mismatch."""
+        ast = probed(ast)
         spec = self._oracle_canon(ast)
         if spec is None:
             return None
@@ -853,14 +915,20 @@ class C03(fw.Check):
     def _shrink(self, ast, signature):
         cur = ast
         progress = True
+        seen = {sexp.dumps(cur)}
         while progress:
             progress = False
             for cand in self._subtrees(cur):
+                cand = probed(cand)  # (re-attaching the closing mapper must not make the candidate grow: no cycles)
+                key = sexp.dumps(cand)
+                if key in seen or ax.leaves(cand) > ax.leaves(cur):
+                    continue
+                seen.add(key)
                 f = self._fails(cand)
                 if f and f[0] == signature:
                     cur, progress = cand, True
                     break
-        return pg.retag(cur)
+        return ax.retag(cur)
 
     def search(self, reason):
         """Widen around the diverging expressions: their sub-expressions and neighbours in every parenthesisation,
@@ -890,7 +958,7 @@ class C03(fw.Check):
         for ast, f in found[:5]:
             small = self._shrink(ast, f[0])
             f2 = self._fails(small) or f
-            self.violate(f'{f2[0]}: composed pipeline differs from the denotation of {pg.shape(small)}', {'expr': small}, f2[0],
+            self.violate(f'{f2[0]}: composed pipeline differs from the denotation of {ax.shape(small)}', {'expr': small}, f2[0],
                          {'impl': str(f2[1])[:500], 'spec': str(f2[2])[:500]})
         self.notes.append(f'failing-input search ({reason}): {tried} expressions around {len(seeds)} diverging cases')
 
@@ -902,7 +970,7 @@ class C03(fw.Check):
         f = self._fails(w['expr'])
         if f is None:
             return None
-        return fw.Violation(f'{f[0]}: composed pipeline differs from the denotation of {pg.shape(w["expr"])}', w, f[0],
+        return fw.Violation(f'{f[0]}: composed pipeline differs from the denotation of {ax.shape(w["expr"])}', w, f[0],
                             {'impl': str(f[1])[:500], 'spec': str(f[2])[:500]})
 
 
